@@ -11,7 +11,7 @@ use std::borrow::Cow;
 
 use crate::{
     ast::{self, support, AstNode, SyntaxNode},
-    NodeOrToken, TokenText,
+    NodeOrToken, SyntaxKind, TokenText,
 };
 
 use super::ForStmt;
@@ -202,16 +202,42 @@ impl ast::IfStmt {
         }
     }
 
+    // Return `Some` if the `if` body is a curly-delimited block.
     pub fn then_branch_block(&self) -> Option<ast::BlockExpr> {
-        match support::children(self.syntax()).nth(1)? {
-            ast::Expr::BlockExpr(block) => Some(block),
-            _ => None,
-        }
+        self.nodes_around_else(false)
+            .into_iter()
+            .nth(1)
+            .and_then(ast::BlockExpr::cast)
     }
 
-    // Hmm. Not sure why this is not `nth(1)`. (It is equivalent to `nth(0)`.)
+    // The child nodes of an `if` statement before (`after_else == false`) or after the `else` keyword.
+    fn nodes_around_else(&self, after_else: bool) -> Vec<SyntaxNode> {
+        let mut seen_else = false;
+        let mut nodes = Vec::new();
+        for element in self.syntax().children_with_tokens() {
+            match element {
+                NodeOrToken::Token(token) => {
+                    if token.kind() == SyntaxKind::ELSE_KW {
+                        seen_else = true;
+                    }
+                }
+                NodeOrToken::Node(node) => {
+                    if seen_else == after_else {
+                        nodes.push(node);
+                    }
+                }
+            }
+        }
+        nodes
+    }
+
+    // Return `Some` if the `if` body is a single statement rather than a block.
+    // The body is the node that follows the condition and precedes `else`.
     pub fn then_branch_stmt(&self) -> Option<ast::Stmt> {
-        support::child(&self.syntax)
+        self.nodes_around_else(false)
+            .into_iter()
+            .nth(1)
+            .and_then(ast::Stmt::cast)
     }
 
     // This is the `if` body, corresponding to the condition evaluating true.
@@ -227,15 +253,18 @@ impl ast::IfStmt {
 
     // Return `Some` if the else branch is present and is a curly-delimited block.
     pub fn else_branch_block(&self) -> Option<ast::BlockExpr> {
-        match support::children(self.syntax()).nth(2)? {
-            ast::Expr::BlockExpr(block) => Some(block),
-            _ => None,
-        }
+        self.nodes_around_else(true)
+            .into_iter()
+            .next()
+            .and_then(ast::BlockExpr::cast)
     }
 
     // Return `Some` if the else branch is present and is a single statement.
     pub fn else_branch_stmt(&self) -> Option<ast::Stmt> {
-        support::child(&self.syntax)
+        self.nodes_around_else(true)
+            .into_iter()
+            .next()
+            .and_then(ast::Stmt::cast)
     }
 
     // This is the `else` body, corresponding to the condition evaluating false.
